@@ -57,7 +57,11 @@ Section Run.
         (* a model observation [unsup] means: outside the modelled fragment, not compared *)
         let mm := if lines_eqb mobs iobs || lines_eqb mobs [bs "unsup"] then []
                   else [bs "M" :: nat_to_dec idx :: mobs] in
-        let ff := map (fun c => [bs "F"; nat_to_dec idx; c]) (oracle S st st' o iobs) in
+        (* an input the model declares outside its fragment is neither compared nor judged - except for faults
+           ("C05:" clauses: nothing may panic on any input) *)
+        let judged := if lines_eqb mobs [bs "unsup"] then filter (fun c => has_prefix c (bs "C05:")) (oracle S st st' o iobs)
+                      else oracle S st st' o iobs in
+        let ff := map (fun c => [bs "F"; nat_to_dec idx; c]) judged in
         let tt := match tags S st st' o iobs with [] => [] | t => [bs "T" :: nat_to_dec idx :: t] end in
         mm ++ ff ++ tt ++ run_ops (absorb S st' o iobs) (Datatypes.S idx) ls'
       else [[bs "X"; nat_to_dec idx; bs "bad-line-pair"]]
